@@ -268,7 +268,11 @@ func init() {
 				o.Desc = what + " is called with a field mask that nothing has validated for this message type (it panics on paths through scalar/map/repeated-scalar fields)"
 			}
 			c.eng.onMessageWrite(c, st, m, what, pos)
-			c.sc.Decl("filterval", "(declare-fun |filterval| (Int Int) Int)")
+			fname := "filterval"
+			if strings.Contains(what, "Prune") {
+				fname = "pruneval" // Prune removes what Filter keeps: a different function of (content, mask)
+			}
+			c.sc.Decl(fname, "(declare-fun |"+fname+"| (Int Int) Int)")
 			mh := c.msgHeap()
 			c.eng.havocMessageFieldsFrom(c, st, "filter", m.FreshFrom)
 			// the abstract content becomes a function of the old content and the mask argument
@@ -280,7 +284,7 @@ func init() {
 			case sInt:
 				key = other.E
 			}
-			c.heapSet(st, mh, "(store "+c.heapGet(st, mh)+" (i-val "+m.E+") (|filterval| "+c.msgVal(st, "(i-val "+m.E+")")+" "+key+"))")
+			c.heapSet(st, mh, "(store "+c.heapGet(st, mh)+" (i-val "+m.E+") (|"+fname+"| "+c.msgVal(st, "(i-val "+m.E+")")+" "+key+"))")
 			return nil
 		}
 	}
